@@ -167,9 +167,9 @@ def rule_exit_status(ctx, R="C03.2"):
     ctx.check(R, "StdoutWriter::write_reports/filtered-collection", len(fr) == 1, "the reports that are displayed are `self.filter(<the offered reports>)`: %s" % fr, site(WR, w))
     FR = fr[0] if fr else "reports"
     incs = [n for n in walk(w["body"]) if n["k"] == "Binary" and n["op"] == "+=" and render(n["l"]) == "self.written"]
-    ctx.check(R, "StdoutWriter::write_reports/counter-grows-by-displayed", len(incs) == 1 and render(strip(incs[0]["r"])) == FR + ".len()" and not (conditions_to(w["body"], incs[0]) or []), "self.written += %s" % (render(incs[0]["r"]) if incs else "?"), site(WR, w))
+    ctx.check(R, "StdoutWriter::write_reports/counter-grows-by-displayed", len(incs) == 1 and sgrep.match(sgrep.pattern(FR + ".len()"), incs[0]["r"], {}, envl) and not (conditions_to(w["body"], incs[0]) or []), "self.written += %s" % (render(incs[0]["r"]) if incs else "?"), site(WR, w))
     t = block_tail(w["body"])
-    ctx.check(R, "StdoutWriter::write_reports/returns-displayed-count", t is not None and render(strip(t)) == FR + ".len()", "returns %s" % render(t), site(WR, w))
+    ctx.check(R, "StdoutWriter::write_reports/returns-displayed-count", t is not None and sgrep.match(sgrep.pattern(FR + ".len()"), t, {}, envl), "returns %s" % render(t), site(WR, w))
     # diagnostics: one per filtered report (loop with one unconditional push, or a map/collect without filtering)
     okb, how = sgrep.each_calls(w["body"], FR + ".iter()", "to_diagnostic", envl)
     if not okb:
@@ -201,6 +201,21 @@ def rule_exit_status(ctx, R="C03.2"):
         t = render(ff["body"]).replace(" ", "")
         pvf = sgrep.params(ff)
         okc = bool(pvf) and (sgrep.has(ff["body"], "__rs.iter().filter(|__r| self.filters.iter().all(|__f| __f.filter(__r))).cloned().collect()", sgrep.lets(ff["body"]), {"__rs": pvf[0]}) or sgrep.has(ff["body"], "__rs.iter().filter(|__r| self.filters.iter().all(|__f| __f.filter(__r))).cloned().collect::<ReportCollection>()", sgrep.lets(ff["body"]), {"__rs": pvf[0]}))
+        if not okc and pvf:
+            # loop form: for x in RS { if <all filters accept x> { kept.push(x.clone()) } } kept
+            tl = block_tail(ff["body"])
+            lenv_f = sgrep.lets(ff["body"])
+            for lp in [n for n in walk(ff["body"]) if n["k"] == "For" and render(strip(n["iter"])).replace(" ", "") in (pvf[0], pvf[0] + ".iter()")]:
+                xv = render(lp["pat"]).replace("&", "").strip()
+                ps = list(method_calls(lp["body"], "push"))
+                if len(ps) != 1 or tl is None or render(strip(ps[0]["recv"])) != render(strip(tl)) or render(strip(ps[0]["args"][0])) != xv:
+                    continue
+                init = lenv_f.get(render(strip(tl)))
+                if init is None or render(strip(init)).replace(" ", "") not in ("ReportCollection::new()", "Vec::new()", "vec![]", "Vec::default()"):
+                    continue
+                cs_ = conditions_to(lp["body"], ps[0]) or []
+                if len(cs_) == 1 and cs_[0][0] == "if" and cs_[0][2] and sgrep.match(sgrep.pattern("self.filters.iter().all(|__f| __f.filter(%s))" % xv), cs_[0][1], {}) and not [x for x in walk(lp["body"]) if x["k"] in ("Break", "Continue", "Return")]:
+                    okc = True
         ctx.check(R, ty + "::filter/conjunction-of-all-filters", okc and "any(" not in t, t[:200], site(WR, ff))
 
 
@@ -293,10 +308,12 @@ def rule_sarif(ctx):
         if f["name"] == "write_reports" and "SarifWriter" in q:
             sw_ = f
     if sw_ is not None:
-        env2 = let_env(sw_["body"])
-        ok = "reports" in env2 and render(strip(env2["reports"])).replace(" ", "") == "self.filter(reports)"
+        env2 = sgrep.lets(sw_["body"])
+        pvs = sgrep.params(sw_)
         ser = list(method_calls(sw_["body"], "serialize_reports"))
-        ok = ok and len(ser) == 1 and render(strip(ser[0]["args"][0])) == "reports"
+        # (the filtered collection may shadow the parameter's name: resolve exactly one level)
+        arg0 = strip(ser[0]["args"][0]) if len(ser) == 1 else None
+        ok = arg0 is not None and bool(pvs) and arg0["k"] == "Path" and arg0["path"] in env2 and render(strip(env2[arg0["path"]])).replace(" ", "") == "self.filter(%s)" % pvs[0]
         ctx.check(R, "SarifWriter::write_reports/serialises-the-filtered-set", ok, render(sw_["body"])[:160], site(WR, sw_))
     # SARIF result fields come from the report
     ts = None
@@ -436,7 +453,9 @@ def rule_filter_laws(ctx):
         ok = False
         tab = {}
         if len(ms) == 1:
-            scr = render(ms[0]["scrut"]).replace(" ", "")
+            from astlib import inline_lets
+
+            scr = render(inline_lets(ms[0]["scrut"], fs["body"])).replace(" ", "")
             lower = "to_lowercase()" in scr or "to_ascii_lowercase()" in scr
             upper = "to_uppercase()" in scr or "to_ascii_uppercase()" in scr
             wild_err = False
